@@ -245,6 +245,26 @@ class Interp:
             if not broke:
                 self.block(st.orelse, env, func, depth)
             return
+        if isinstance(st, ast.While):
+            broke = False
+            for _ in range(4096):
+                c = self.ev(st.test, env, mod, func, depth)
+                if isinstance(c, Sym) or not isinstance(c, (bool, int)) and c is not None:
+                    raise Unknown(f'loop condition `{norm(st.test)[:40]}` on a symbolic value')
+                if not c:
+                    break
+                try:
+                    self.block(st.body, env, func, depth)
+                except _Break:
+                    broke = True
+                    break
+                except _Continue:
+                    continue
+            else:
+                raise Unknown('loop bound')
+            if not broke:
+                self.block(st.orelse, env, func, depth)
+            return
         if isinstance(st, ast.Delete):
             for t in st.targets:
                 if not isinstance(t, ast.Subscript):
